@@ -181,6 +181,25 @@ def r3(ctx: Ctx) -> None:
                              f'`except {types}: {body}` around {call_name(calls[0])}(): a rules / views file that fails to load is swallowed without any message — the command goes on as if the file '
                              f'contained no rules ("Loaded 0 rules", everything Unknown)', h)
     ctx.need(n >= 4, f'C17.R3: only {n} handlers around loader calls found')
+    # load_config records view-load errors in the warnings list: what it stores in config['_warnings'] must be that very list
+    # (or be stored after the last append), otherwise the recorded error never reaches _print_deprecation_warnings
+    lc = proj.func('config_loader.load_config')
+    fl = get_flow(proj, lc)
+    stores = [s_ for s_ in fl.cfg.stmts() if isinstance(s_, ast.Assign) and src(s_.targets[0]) == "config['_warnings']"]
+    appends = [c for c in fl.calls('append') if src(c.func) == 'warnings.append']
+    if not stores:
+        ctx.fail('C17.R3', lc, 'warnings-published', "load_config never publishes its warnings (config['_warnings'])", lc.node)
+    for st in stores:
+        alias = isinstance(st.value, ast.Name) and st.value.id == 'warnings'
+        later = [c for c in appends if fl.cfg.reachable_without(fl.cfg.nid(st), fl.cfg.nid(fl.stmt_of(c)), set()) and fl.cfg.nid(fl.stmt_of(c)) != fl.cfg.nid(st)]
+        ok = alias or not later
+        ctx.check(ok, 'C17.R3', lc, 'warnings-published', "config['_warnings'] is the list the later errors are appended to",
+                  f"config['_warnings'] = {src(st.value)[:50]} stores a copy, but {len(later)} warning(s) are appended to `warnings` afterwards (e.g. 'Error loading views', line "
+                  f"{later[0].lineno if later else 0}): a views file that fails to load is then reported nowhere and the budget silently has no views", st)
+    # and the CLI prints them
+    pw = proj.func('cli._print_deprecation_warnings')
+    ok = any(isinstance(n_, ast.Call) and call_name(n_) == 'print' for n_ in ast.walk(pw.node)) and "'_warnings'" in src(pw.node)
+    ctx.check(ok, 'C17.R3', pw, 'warnings-printed', 'recorded warnings are printed', '_print_deprecation_warnings does not print the recorded warnings')
 
 
 def r4(ctx: Ctx, mp: FuncInfo, ps: FuncInfo) -> None:
